@@ -131,7 +131,15 @@ pub enum Ev {
     XlsxExportImport { plan: crate::xlsxfault::WritePlan },
     /// take a valid package (the primary's export, or a fixture from /repo/xlsx/tests),
     /// damage it, import it (optionally through a fault-injecting reader)
-    CorruptImport { fixture: Option<String>, corrupt: crate::xlsxfault::Corrupt, read: Option<crate::xlsxfault::ReadPlan> },
+    CorruptImport {
+        fixture: Option<String>,
+        corrupt: crate::xlsxfault::Corrupt,
+        read: Option<crate::xlsxfault::ReadPlan>,
+        /// also evaluate the imported workbook (C08 looks at computed values; C25 speaks of
+        /// the import alone: import + Model::from_workbook)
+        #[serde(default)]
+        evaluate: bool,
+    },
     Tick { ms: u64 },
     Bare { op: BareOp },
     // ---- probes that are user-level actions -------------------------------
